@@ -118,14 +118,14 @@ Definition sres_eqb (a b : sres) : bool :=
    under one of them. *)
 Definition rest_agrees_sched (c : rest_case) (sched : list ev) : bool :=
   if rc_wrapped c then
-    match rrun_strict (rc_rec c) (init (rc_fl c) (rc_h0 c) (rc_script c)) sched with
+    match rrun_strict recover_reply (rc_rec c) (init (rc_fl c) (rc_h0 c) (rc_script c)) sched with
     | Some (s, obs) =>
       list_eqb ares_eqb obs (rc_hobs c) && rw_eqb (rw s) (obs_rw c) &&
       sres_eqb (sout_of_sst (sst s)) (rc_sout c)
     | None => false
     end
   else
-    match rxrun_strict (rc_rec c) (xinit (rc_fl c) (rc_h0 c) (rc_script c)) sched with
+    match rxrun_strict recover_reply (rc_rec c) (xinit (rc_fl c) (rc_h0 c) (rc_script c)) sched with
     | Some (s, obs) =>
       list_eqb ares_eqb obs (rc_hobs c) && rw_eqb (xrw s) (obs_rw c) &&
       sres_eqb (sout_of_hst (xhst s)) (rc_sout c)
@@ -166,11 +166,11 @@ Definition candidates (c : rest_case) : list (list act) :=
 (* the work as the timeout middleware sees it: with a RecoverHandler in between, the
    script up to its first panic, then WriteHeader(500) (Recover.rec_cut) *)
 Definition work_of (c : rest_case) (acts : list act) : list act :=
-  if rc_rec c then rec_cut (rc_fl c) false acts else acts.
+  if rc_rec c then rec_cut recover_reply (rc_fl c) false acts else acts.
 
 (* ... and for a request that is not wrapped (the recovery answers on the real writer) *)
 Definition xwork_of (c : rest_case) (acts : list act) : list act :=
-  if rc_rec c then xrec_cut (rw_fresh (rc_fl c) (rc_h0 c)) acts else acts.
+  if rc_rec c then xrec_cut recover_reply (rw_fresh (rc_fl c) (rc_h0 c)) acts else acts.
 
 Definition obs_view (c : rest_case) : view := rw_view (obs_rw c).
 
@@ -410,7 +410,7 @@ Definition gseq_agrees (rec : bool) (conf : seq_req -> Z * list act) (reqs : lis
            (sched : list (nat * ev)) (hobs : list (nat * ares)) : bool :=
   let wrap r := wrapped (fst (conf r)) (classify (sr_hdrs r)) in
   let comps := map (fun r => cinit (wrap r) (mkReq (sr_fl r) (sr_h0 r) (snd (conf r)))) reqs in
-  match rcmrun_strict rec comps sched with
+  match rcmrun_strict recover_reply rec comps sched with
   | Some (cs, obs) =>
     list_eqb iares_eqb obs hobs &&
     forall_idx (fun i cr =>
@@ -563,12 +563,12 @@ Definition model_obs (c : case) :=
   match c with
   | CRest c =>
     if rc_wrapped c then
-      match rrun_strict (rc_rec c) (init (rc_fl c) (rc_h0 c) (rc_script c)) (rc_sched c) with
+      match rrun_strict recover_reply (rc_rec c) (init (rc_fl c) (rc_h0 c) (rc_script c)) (rc_sched c) with
       | Some (s, obs) => Some (rw s, obs)
       | None => None
       end
     else
-      match rxrun_strict (rc_rec c) (xinit (rc_fl c) (rc_h0 c) (rc_script c)) (rc_sched c) with
+      match rxrun_strict recover_reply (rc_rec c) (xinit (rc_fl c) (rc_h0 c) (rc_script c)) (rc_sched c) with
       | Some (s, obs) => Some (xrw s, obs)
       | None => None
       end
